@@ -5,6 +5,7 @@ package models
 import (
 	"compress/gzip"
 	"fmt"
+	zz "github.com/goreleaser/nfpm/v2/internal/zzverif"
 	"io"
 
 	"github.com/klauspost/compress/zstd"
@@ -30,6 +31,7 @@ const (
 )
 
 type CompState struct {
+	key    any // the real writer object this state belongs to
 	W      io.Writer
 	Kind   byte
 	buf    []byte
@@ -44,12 +46,14 @@ var (
 )
 
 func newComp(key any, w io.Writer, kind byte) {
-	st := &CompState{W: w, Kind: kind}
+	st := &CompState{key: key, W: w, Kind: kind}
+	zz.Touch(key)
 	compStates[key] = st
 	CompOrder = append(CompOrder, st)
 }
 
 func (st *CompState) write(p []byte) (int, error) {
+	zz.Touch(st.key)
 	if st.err != nil {
 		return 0, st.err
 	}
@@ -72,6 +76,7 @@ func (st *CompState) emit(p []byte) error {
 }
 
 func (st *CompState) close() error {
+	zz.Touch(st.key)
 	if st.err != nil {
 		return st.err
 	}
@@ -156,6 +161,17 @@ func ZstdNewWriter(w io.Writer, opts ...zstd.EOption) (*zstd.Encoder, error) {
 	newComp(z, w, KindZstd)
 	return z, nil
 }
+
+// Reset re-targets an existing writer object: a fresh stream state under the same key.
+//
+//verif:replace (*github.com/klauspost/compress/zstd.Encoder).Reset
+func ZstdReset(z *zstd.Encoder, w io.Writer) { newComp(z, w, KindZstd) }
+
+//verif:replace (*compress/gzip.Writer).Reset
+func GzipReset(z *gzip.Writer, w io.Writer) { newComp(z, w, KindGzip) }
+
+//verif:replace (*github.com/klauspost/pgzip.Writer).Reset
+func PgzipReset(z *pgzip.Writer, w io.Writer) { newComp(z, w, KindGzip) }
 
 //verif:replace (*github.com/klauspost/compress/zstd.Encoder).Write
 func ZstdWrite(z *zstd.Encoder, p []byte) (int, error) { return compStates[z].write(p) }
